@@ -146,6 +146,10 @@ TIES = {
                 "needs": ["lookup_enc", "options", "encode", "encode_stmt", "flows"],
                 "theorems": ["source_stream_new_is_model", "source_enroll_is_model", "source_namespace_declaration_is_model",
                              "source_stream_triple_is_model", "source_stream_quad_is_model", "source_stream_graph_is_model"]},
+    # the reader: options_from_frame (what a reader is told about a stream from its first row)
+    "decode": {"sources": ["pyjelly/parse/decode.py"], "gen": "DecodeGen", "tie": "DecodeTie",
+               "needs": ["lookup_enc", "options", "encode"], "needs_gen": ["lookup_dec"],
+               "theorems": ["source_options_from_frame_is_model"]},
     # property C05 itself, about the translated writer and reader coupled as the wire couples them (no model in the statement)
     "c05_source": {"sources": ["pyjelly/serialize/lookup.py", "pyjelly/parse/lookup.py"], "unit": "lookup_enc", "gen": "LookupEncGen", "tie": "C05Source",
                    "needs": ["lookup_enc", "lookup_dec"], "props": ["C05"], "theorems": ["C05_source_mirror_all_histories"]},
